@@ -879,7 +879,8 @@ def apply_excludes(spec, EXCLUDE, col=None):
 
 
 NAMES = ["w", "layer.0.weight", "b", "enc/kernel:0", "a b", "ünï", "W_3", "x.1", "p", "q", "0", "bias.bias"]
-DEST_NAMES = ["model.onnx", "m.onnx", "model", "my model.onnx", "model.v2.onnx", "модель.onnx", "net.pb", "a.onnx.onnx"]
+DEST_NAMES = ["model.onnx", "m.onnx", "model", "my model.onnx", "model.v2.onnx", "модель.onnx", "net.pb", "a.onnx.onnx",
+              "model.textproto"]  # (text formats: ir.save picks the serializer from the extension of the path it is given)
 SIZE_CLASSES = ["zero", "scalar", "small", "boundary", "above", "above", "above", "medium", "medium"]
 
 
